@@ -308,6 +308,7 @@ def run(ctx: Ctx) -> int:
             inputs.append(("target-line", f"from Reduino import target\ntarget({q}{longport}{q}{tail}\nled = 1\n", None))
             inputs.append(("target-line", f"from Reduino import target\nport = target({q}{longport} {longport}{q}){tail}\n", None))
     inputs.append(("python", scripts_pool.HEADER + "mon = SerialMonitor(9600)\nc = 1\nif c > 0:\n    al\u00e9 = 1\nmon.write(c)\n", None))
+    inputs.append(("python", scripts_pool.HEADER + "mon = SerialMonitor(9600)\nwhile True:\n    mon.write(digital_read(7)\n              + analog_read(\"A1\"))\n", None))
     for v in VALID_PYTHON:
         inputs.append(("python", scripts_pool.HEADER + v, None))
     for p in sorted((common.SRC / "Reduino").rglob("*.py"))[:12]:
@@ -372,7 +373,16 @@ def run(ctx: Ctx) -> int:
                 is_python = False
             if is_python:
                 nonascii = any(ord(ch) > 127 for ch in src)
-                ctx.fail("clean-failure:SyntaxError-for-valid-python" + (":non-ascii-source" if nonascii else ""), "SyntaxError raised for text that IS Python", replay)
+                spans = False
+                try:
+                    import io
+                    import tokenize
+                    spans = any(t.type == tokenize.NL and t.line.strip() and not t.line.strip().startswith("#") and not t.line.split("#")[0].strip() == ""
+                                for t in tokenize.generate_tokens(io.StringIO(src).readline)) or "\\\n" in src
+                except Exception:  # noqa: BLE001
+                    pass
+                suffix = ":non-ascii-source" if nonascii else (":statement-spans-lines" if spans else "")
+                ctx.fail("clean-failure:SyntaxError-for-valid-python" + suffix, "SyntaxError raised for text that IS Python", replay)
         elif o == "returns" and kind in ("noise", "mutated", "python"):
             try:
                 ast.parse(src)
